@@ -730,8 +730,19 @@ class Lib:
                     pass
                 ln = Ite(compare(">", a, b), arith("-", a, b), 0)
                 k = z3.Int(fresh("sl"))
-                return mk_seq(interp, ln, k, _ssel(obj, 'arr', tz(a) - k), obj.kind, obj.ekind,
-                              _ssel(obj, 'none', tz(a) - k) if obj.none is not None else None)
+                out = mk_seq(interp, ln, k, _ssel(obj, 'arr', tz(a) - k), obj.kind, obj.ekind,
+                             _ssel(obj, 'none', tz(a) - k) if obj.none is not None else None)
+                # the reversal is a bijection: state the inverse direction too (trigger on the source array), so that a fact
+                # about one source entry reaches the corresponding entry of the reversed sequence
+                j = z3.Int(fresh("rv"))
+                inr = z3.And(0 <= tz(a) - j, tz(a) - j < tz(ln))
+                if z3.is_const(obj.arr) and obj.arr.decl().kind() == z3.Z3_OP_UNINTERPRETED:
+                    interp.ctx._add(z3.ForAll([j], z3.Implies(inr, z3.Select(obj.arr, j) == z3.Select(out.arr, tz(a) - j)),
+                                              patterns=[z3.Select(obj.arr, j)]))
+                if obj.none is not None and z3.is_const(obj.none) and obj.none.decl().kind() == z3.Z3_OP_UNINTERPRETED:
+                    interp.ctx._add(z3.ForAll([j], z3.Implies(inr, z3.Select(obj.none, j) == z3.Select(out.none, tz(a) - j)),
+                                              patterns=[z3.Select(obj.none, j)]))
+                return out
         interp.err(node, "slice %r[%r:%r:%r]" % (type(obj).__name__, lo, hi, st))
 
     def to_sseq(self, interp, cl, node):
